@@ -629,7 +629,7 @@ func runC12(seed int64, tier string, out string) {
 		"analytic", "analytic", "setop", "ltsv", "jsonl", "insert-select", "update", "delete", "create-as", "alter-add", "mixed", "replace-one", "replace"}
 	rounds, reps := 6, 3
 	if tier == "thorough" {
-		rounds, reps = 16, 5
+		rounds, reps = 24, 5
 	}
 	cpus := []int{1, 2, 3, 4, 8, 16}
 	var progs []c12Program
